@@ -616,6 +616,23 @@ func (db *DB) rollbackJournal(ctx context.Context) error {
 	}
 	defer func() { _ = journalFile.Close() }()
 
+	// An unknown page size means the database file is empty (e.g. a crash during
+	// the first transaction), so there are no pages to restore. SQLite also
+	// discards a hot journal that belongs to a zero-length database.
+	if db.pageSize == 0 {
+		if err := journalFile.Close(); err != nil {
+			return err
+		} else if err := db.os.Remove("ROLLBACKJOURNAL", db.JournalPath()); err != nil {
+			return err
+		}
+		if invalidator := db.store.Invalidator; invalidator != nil {
+			if err := invalidator.InvalidateEntry(db.name + "-journal"); err != nil {
+				return fmt.Errorf("invalidate journal: %w", err)
+			}
+		}
+		return nil
+	}
+
 	dbFile, err := db.os.OpenFile("ROLLBACKJOURNALDB", db.DatabasePath(), os.O_RDWR, 0o666)
 	if err != nil {
 		return err
